@@ -399,6 +399,11 @@ def gen_cases(rng, thorough):
                 (["vm2"], 1, {"vm2": ("install", "windows_virtuser")}, None),
                 (["vm1"], 1, {"vm1": ("install", "customize")}, "minimal"),
                 (["vm3"], 2, {"vm3": ("install", "on_customize")}, None),
+                # a target provided by a test of a NESTED test set (normal.gui...) with that set as the remove set: the node
+                # names of the remove-set graph then carry two set variants in front of the test
+                (["vm2"], 2, {"vm2": ("windows_virtuser", "tutorial_gui.client_clicked")}, "normal"),
+                (["vm2"], 1, {"vm2": rng.choice([("customize", "tutorial_gui.client_noop"),
+                                                 ("install", "tutorial_gui.client_noop")])}, "normal"),
                 # a worker that cannot provide the vm variant (net5: only_vm1 = Fedora) listed BEFORE compatible ones:
                 # it is skipped, the workers after it are still updated
                 (["vm1"], rng.choice([["net1", "net5", "net2"], ["net5", "net1"], ["net5", "net2", "net1"]]),
@@ -434,6 +439,10 @@ def gen_cases(rng, thorough):
             if vms == ["vm1"] and "net5" not in nets and rng.random() < 0.25:
                 c["vms"]["vm1"] = ""          # all variants of vm1 (CentOS, Fedora)
             cases.append(c)
+        for nw in (1, 2, 3):
+            for ft in (("windows_virtuser", "tutorial_gui.client_clicked"), ("customize", "tutorial_gui.client_noop"),
+                       ("install", "tutorial_gui.client_clicked")):
+                cases.append(mk_case(rng, ["vm2"], rng.sample(NETS, nw), {"vm2": ft}, rng.choice(["normal", "normal", "leaves"])))
         for _ in range(24):
             vms = sorted(rng.sample(["vm1", "vm2", "vm3"], rng.choice([2, 2, 3])))
             ft = {vm: rng.choice(pairs(vm)) for vm in vms}
